@@ -16,6 +16,7 @@ import contextlib
 import hashlib
 import io
 import json
+import re
 import os
 import subprocess
 import sys
@@ -73,6 +74,12 @@ def closures(tier: str) -> List[Dict[str, Any]]:
            "rig_b.yaml": {"message_defs": {"_RESERVED_": {"id": ["4800 to 4889"]}, "RB": {"id": 4890, "fields": {"b": "double"}}}}}
     out.append({"files": defx.Program(big).to_json()["files"], "kw": {"import_coredefs": False}, "label": "large reserved blocks in three files", "feats": []})
     out.append({"files": defx.Program(big).to_json()["files"], "kw": {"import_coredefs": True}, "label": "large reserved blocks in three files + core", "feats": []})
+    # long string constants (a URL, a sentence, text with colons): what the combined file makes of them must read back
+    longs = {"root.yaml": {"string_constants": {"DOC_URL": "see https://example.org/a/very/long/path/that/goes/on/and/on/for/more/than/eighty/characters/in/total/index.html",
+                                                "LONG_PLAIN": " ".join(["word"] * 40), "COLON_TXT": " ".join(["at 12:30:00 key:value"] * 8),
+                                                "SHORT_URL": "http://x.org/a:b"},
+                           "message_defs": {"LS": {"id": 4530, "fields": {"a": "int32"}}}}}
+    out.append({"files": defx.Program(longs).to_json()["files"], "kw": {"import_coredefs": False}, "label": "long string constants", "feats": []})
     seqs = c04.sequences("quick")[:: 40]
     prog, _ = c04.batch_program(seqs, 2)
     out.append({"files": prog.to_json()["files"], "kw": {}, "label": "packed C04-style program (diamond imports)", "feats": []})
@@ -113,7 +120,9 @@ def run_group(args) -> List[Dict[str, Any]]:
         for k, cl in enumerate(group):
             probs = []
             st0, st1 = specs[0][1][str(k)], specs[1][1][str(k)]
-            if st0 != st1:
+            # (an error text may name the file, whose directory differs between the runs by construction)
+            norm = lambda t: re.sub(r"/run[01]/", "/run/", t) if isinstance(t, str) else t
+            if norm(st0) != norm(st1):
                 probs.append({"kind": "verdict-differs-between-runs", "run0": st0, "run1": st1})
             elif st0 != "ok":
                 probs.append({"kind": "closure-rejected", "exc": st0})
